@@ -138,3 +138,19 @@ Definition run_fl_idx (c : fl_case) : val :=
   | Some i' => VL [VN 0; VL (map enc_fentry (sort_entries i'))]
   | None => VL [VN 1]
   end.
+
+(* the same with entries already in the trie (stale ones below the key, bystanders outside it): the index is read
+   as a MAP (first binding wins, as [lookup] does) over its distinct keys in key order *)
+Definition canon_idx (i : idx) : list (key * entry) :=
+  flat_map (fun k => match lookup i k with Some e => [(k, e)] | None => [] end) (usort key_ltb (map fst i)).
+Record fl_case2 := { c_base : fl_case; c_extra : list (key * bool * N) }.   (* key, isdir, size *)
+Definition extra_entry (x : key * bool * N) : key * entry :=
+  let '(k, d, sz) := x in
+  (k, {| e_meta := Some {| m_dir := d; m_size := if d then None else Some sz; m_exec := false |};
+         e_hash := None; e_loaded := d |}).
+Definition run_fl_idx2 (c : fl_case2) : val :=
+  let b := c_base c in
+  match idx_load_file (c_prefix b) (c_ws b) (c_key b) ((c_key b, dir0) :: map extra_entry (c_extra c)) with
+  | Some i' => VL [VN 0; VL (map enc_fentry (canon_idx i'))]
+  | None => VL [VN 1]
+  end.
